@@ -62,6 +62,14 @@ def adjacentIn : List Nat → Nat → Nat → Bool
   | x :: y :: rest, a, b => (x == a && y == b) || (x == b && y == a) || adjacentIn (y :: rest) a b
   | _, _, _ => false
 
+/-- the gates next to `g` on the path `p` -/
+def nbrsIn : List Nat → Nat → List Nat
+  | x :: y :: rest, g => (if x == g then [y] else []) ++ (if y == g then [x] else []) ++ nbrsIn (y :: rest) g
+  | _, _ => []
+
+/-- the neighbours of `g` (`none`: `g` lies on a ring) -/
+def neighbours (sp : State) (g : Nat) : Option (List Nat) := (pathOf sp g).map (nbrsIn · g)
+
 /-- are `a`, `b` neighbours on a ring -/
 def adjacentRing (p : List Nat) (a b : Nat) : Bool :=
   adjacentIn p a b ||
